@@ -12,7 +12,7 @@ RULE = ("StochasticNetwork worlds: 1-4 stations, more simultaneous sessions than
         "scripted parties; a FIFO waiting-room model is stepped from the scenario and compared at every end-of-period tap; "
         "non-trivial = >=1 session waited and was later admitted and >=1 left while waiting; distinct = history signature + "
         "waiting pattern")
-PROBES = ["waited_then_admitted", "left_while_waiting", "early_unplug", "two_or_more_waiting_at_admission", "direct_plugin",
+PROBES = ["recorded_arrivals_in_another_order_than_plugins", "content_drivers_world", "content_driver_connected", "waited_then_admitted", "left_while_waiting", "early_unplug", "two_or_more_waiting_at_admission", "direct_plugin",
           "satisfied_residual_evicted", "same_seed_rerun", "choice_first", "choice_last", "resumed", "generated_multi_day_queue",
           "queried_between_registrations", "hashseed_fresh_interpreter"]
 FAULT_DIMENSION = "adversarial random.choice tape (always first / always last free station); crash + rerun"
@@ -30,6 +30,21 @@ def gen(rs, tier):
     r = world.sub(rs, "c19x")
     if len(sc["network"]["stations"]) >= 2 and r.random() < 0.3:
         sc["network"]["query_after_first_registrations"] = r.randrange(len(sc["network"]["stations"]) - 1)
+    rq = world.sub(rs, "c19_records")
+    if rq.random() < 0.25:
+        # vehicles whose own record gives an arrival before the period of their plug-in event (on site before the window opened,
+        # plug-in queued late), in another order than the plug-in events: first come = first to ask for a space
+        for s_ in sc["sessions"]:
+            if rq.random() < 0.7:
+                s_["ev_arrival"] = s_["arrival"] - rq.randint(1, 15)
+        sc["recorded_arrival_before_plugin"] = True
+    if sc["network"].get("early_departure") and rq.random() < 0.15:
+        # drivers who are content with part of their request (a user subclass of EV overriding fully_charged): a content driver's
+        # space goes to whoever waits
+        for s_ in sc["sessions"]:
+            if rq.random() < 0.6:
+                s_["content_at"] = rq.choice([0.5, 0.25, 0.75])
+        sc["content_drivers"] = True
     if rs % 10 == 3:
         # sessions come out of the library's own generator (seeded sample override) for a queue covering several days
         sc["sim"]["period"] = 60
@@ -172,6 +187,11 @@ def check(sc):
                 v = pre["st"][s]
                 if v[0] is not None:
                     rem = sess[v[0]]["energy"] - v[2]
+                    ca_ = sess[v[0]].get("content_at")
+                    if ca_ is not None:
+                        # (a content driver: satisfied from content_at x request on; see build.ContentAtEV)
+                        rem = ca_ * sess[v[0]]["energy"] - v[2]
+                        out.probe("content_driver_connected")
                     if abs(rem - 1e-3) < 1e-9:
                         out.inconclusive += 1
                     if not (rem > 1e-3):
@@ -205,6 +225,10 @@ def check(sc):
     out.probe("resumed", len(tr.resumes))
     if sc.get("generated"):
         out.probe("generated_multi_day_queue")
+    if sc.get("recorded_arrival_before_plugin"):
+        out.probe("recorded_arrivals_in_another_order_than_plugins")
+    if sc.get("content_drivers"):
+        out.probe("content_drivers_world")
     if "query_after_first_registrations" in sc["network"]:
         out.probe("queried_between_registrations")
     out.probe("choice_" + sc["tapes"]["choice"] if sc["tapes"]["choice"] in ("first", "last") else "direct_plugin", 0)
